@@ -65,7 +65,7 @@ def run(ctx):
                   "terminal edges are added to %s, which is not a copy of self.dg made in this function" % g, f.qname, "private graph")
         c = sink_edges[0]
         loop = C.enclosing_loop(c)
-        ok = isinstance(loop, ast.For) and U(loop.iter) == "self.kernel" and U(c.args[0]) == "%s.line_number" % U(loop.target)
+        ok = isinstance(loop, ast.For) and U(loop.iter) == "self.kernel" and U(C.flow_of(f).subst(c.args[0])) == "%s.line_number" % U(loop.target)
         ctx.check(ok and len(sink_edges) == 1, "R3", "every kernel line gets an edge to the virtual sink", f.where(c),
                   "terminal edges are not added for every line of self.kernel", f.qname, "sink edge per line")
         if ok:
@@ -95,14 +95,17 @@ def run(ctx):
                 vals[False] = (U(wv[0].test), U(wv[0].orelse))
             for d in defs:
                 facts = [(U(e), p) for e, p in C.facts_at(d, stop=loop)]
+                facts = [(U(flow.subst(e)), p) for e, p in C.facts_at(d, stop=loop)]
                 cond = [(t, p) for t, p in facts if "has_node" in t]
                 if cond:
                     vals[cond[0][1]] = (cond[0][0], U(d.value))
-                elif isinstance(d.value, ast.IfExp) and "has_node" in U(d.value.test):
-                    vals[True] = (U(d.value.test), U(d.value.body))
-                    vals[False] = (U(d.value.test), U(d.value.orelse))
+                elif isinstance(d.value, ast.IfExp) and "has_node" in U(flow.subst(d.value.test)):
+                    dv = flow.subst(d.value)
+                    vals[True] = (U(dv.test), U(dv.body))
+                    vals[False] = (U(dv.test), U(dv.orelse))
             if set(vals) == {True, False}:
-                good = (vals[True][0] == "%s.has_node(%s.line_number + 0.1)" % (g, iv) and vals[True][1] == "%s.latency_wo_load" % iv
+                gs = {g} | ({U(gdef[0].value)} if gdef else set())
+                good = (vals[True][0] in {"%s.has_node(%s.line_number + 0.1)" % (g_, iv) for g_ in gs} and vals[True][1] == "%s.latency_wo_load" % iv
                         and vals[False][1] == "%s.latency" % iv)
             elif isinstance(wv[0], ast.Attribute) and U(wv[0]) == "%s.latency" % iv:
                 good = False
@@ -181,7 +184,8 @@ def run(ctx):
         # (b) accumulate: the node is looked up through int(s), which is not injective (line, line + 0.1)
         recv = U(tgt.value)
         rdef = [a for a in C.assigns_to(pair_loops[0], recv)]
-        via_int = bool(rdef) and U(rdef[0].value) == "self._get_node_by_lineno(int(%s))" % s
+        via_int = (bool(rdef) and U(rdef[0].value) == "self._get_node_by_lineno(int(%s))" % s) or \
+            recv == "self._get_node_by_lineno(int(%s))" % s
         if isinstance(n, ast.AugAssign) and isinstance(n.op, ast.Add) and via_int:
             ctx.node_ok("R3", f, n, "latency_cp of line int(%s) += weight of edge (%s, %s)" % (s, s, d))
         elif isinstance(n, ast.Assign):
@@ -269,7 +273,7 @@ def run(ctx):
     d_sub = C.flow_of(fd).subst(d_any[0]) if d_any else None
     d_m = pm.match("sum(M_x.M_a for M_x in %s.get_critical_path())" % fd.params()[2], d_sub) if d_sub is not None else None
     ok = t_attr == {"latency_cp"} and d_m is not None and d_m["M_a"] == "latency_cp" and bool(cvc) \
-        and U(cvc[0].args[1]) == "%s.get_critical_path()" % fa.params()[2]
+        and len(cvc[0].args) > 1 and U(C.flow_of(fa).subst(cvc[0].args[1])) == "%s.get_critical_path()" % fa.params()[2]
     ctx.judge(ok, bool(t_any) and d_m is not None and bool(cvc), "R4", "both totals are sum(latency_cp) over get_critical_path()", cv.where(),
               "text and dict compute the CP total differently (text sums .%s, dict %s)" % (sorted(t_attr), U(d_sub) if d_sub is not None else None),
               "Frontend", "cp total agreement")
